@@ -101,16 +101,17 @@ def corr_sum_rule(rng, drv, n_cases=24, sizes=((8, 8), (5, 6), (4, 4))) -> Resul
                 continue
             # projector = I - (sum_r t_r t_r^T) / divisor
             size = proj.shape[0]
-            S = np.zeros((size, size))
+            S = sp.csr_array((size, size))
             for b in mb:
                 if not b:
                     continue
                 rows = np.array([r for r, _ in b])
                 cols = np.array([cc for _, cc in b])
                 A = sp.coo_array((np.ones(len(b)), (rows, cols)), shape=(rows.max() + 1, size)).tocsr()
-                S += (A.T @ A).toarray()
-            P = np.eye(size) - S / m["divisor"]
-            if not np.allclose(P, proj.toarray(), atol=1e-12):
+                S = S + (A.T @ A)
+            P = sp.identity(size, format="csr") - S / m["divisor"]
+            D = (P - sp.csr_array(proj))
+            if D.nnz and float(abs(D).max()) > 1e-12:
                 res.fail(f"sum-rule projector O{order} != I - S/divisor (divisor {m['divisor']})", input=j, order=order)
     return res
 
@@ -359,4 +360,70 @@ def corr_normal_eq(rng, drv, n_cases=12, solvers=None, maxN=(4, 3, 2)) -> Result
                          snap_batch=snap_batch, max_diff=float(np.abs(XTX - gs).max()))
             if m["XTX36"] != m["specXTX36"] or m["XTy6"] != m["specXTy6"]:
                 res.fail(f"operational model != Taylor spec inside the model (solver {name})", cell=c.to_json())
+    return res
+
+
+def corr_spg_reps(rng, drv, n_cases=9, max_N=(8, 6, 4)) -> Result:
+    """REAL SpgRepsO{2,3,4} objects on real crystals (operations from spglib and supplied by the caller in another
+    order): for EVERY coset representative i the index array `get_sigma{n}_rep(i[, nonzero])` is the model's
+    `sigmaRep` of the atom permutation that an independent geometric computation assigns to the i-th unique rotation
+    (`R x + t`), and the Cartesian matrix `r_reps[i]` is the n-fold Kronecker power of that rotation.
+    All arrays are requested FIRST and compared afterwards (a result must not change when the next one is requested)."""
+    from . import physics as ph
+    from .gen import crystal
+    from .oracles import _explicit_ops
+    import importlib
+    res = Result("spg_reps", "correspondence")
+    with Timer(res):
+        for k in range(n_cases):
+            order = (2, 3, 4)[k % 3]
+            cr = crystal(rng, max_N=max_N[order - 2], min_nlp=2 if k % 2 else 1)
+            N = len(cr.numbers)
+            ops = _explicit_ops(cr, rng.randrange(10 ** 6)) if k % 2 else None
+            mod = importlib.import_module(f"symfc.spg_reps.spg_reps_O{order}")
+            reps = getattr(mod, f"SpgRepsO{order}")(cr.atoms(), spacegroup_operations=ops)
+            get = getattr(reps, f"get_sigma{order}_rep")
+            uri = list(reps.unique_rotation_indices)
+            rots = np.asarray(reps._rotations) if hasattr(reps, "_rotations") else None
+            if ops is not None:
+                all_r, all_t = ops["rotations"], ops["translations"]
+            else:
+                all_r, all_t = ph.spg_ops(cr)
+            mask = None
+            if (k // 3) % 2 == 0 and N ** order > 4:
+                mask = np.zeros(N ** order, dtype=bool)
+                mask[rng.sample(range(N ** order), max(1, N ** order // 2))] = True
+            held = [get(i) if mask is None else get(i, nonzero=mask) for i in range(len(uri))]   # hold ALL results
+            res.case({"crystal": cr.to_json(), "order": order, "explicit": ops is not None}, len(uri) >= 2,
+                     sample={"crystal": cr.describe(), "order": order, "explicit_ops": ops is not None,
+                             "n_unique_rotations": len(uri), "mask": mask is not None})
+            res.count(f"order{order}")
+            res.count("caller_ops" if ops is not None else "spglib_ops")
+            res.count("masked" if mask is not None else "unmasked")
+            if len(all_r) != len(np.asarray(reps._permutations)):
+                res.fail("number of operations differs", impl=len(reps._permutations), model=len(all_r))
+                continue
+            L = cr.lattice
+            for i, u in enumerate(uri):
+                perm = ph.atom_perm_of_op(cr, all_r[u], all_t[u])
+                if perm is None:
+                    res.fail("operation is not a symmetry of the generated crystal (generator defect)", input=cr.to_json())
+                    break
+                m = drv.ask({"op": "sigma_rep", "N": N, "n": order, "perm": [int(x) for x in perm],
+                             "mask": None if mask is None else [int(b) for b in mask]})
+                if [int(x) for x in held[i]] != m:
+                    res.fail(f"get_sigma{order}_rep({i}) is not sigma of the atom permutation of unique rotation {i}",
+                             input={"crystal": cr.to_json(), "order": order, "i": i, "explicit_ops": ops is not None},
+                             impl=[int(x) for x in held[i]][:12], model=m[:12])
+                    break
+                rc = ph.cart_rotation(cr, all_r[u])
+                K = rc
+                for _ in range(order - 1):
+                    K = np.kron(rc, K)
+                R = reps.r_reps[i]
+                R = R.toarray() if hasattr(R, "toarray") else np.asarray(R)
+                if R.shape != K.shape or float(np.abs(R - K).max()) > 1e-9:
+                    res.fail(f"r_reps[{i}] is not the {order}-fold Kronecker power of the Cartesian rotation",
+                             input={"crystal": cr.to_json(), "order": order, "i": i})
+                    break
     return res
